@@ -24,6 +24,8 @@ pub struct Spec {
   pub quick: (u32, u32),
   pub thorough: (u32, u32),
   pub assumptions: &'static [&'static str],
+  /// Additional phase (enumeration of fault subsets / crash points).
+  pub extra: Option<fn(&Spec, Tier, u64, &Known, &mut Report)>,
 }
 
 pub fn check(spec: &Spec, case: &Case, stats: &mut Stats) -> CheckResult {
@@ -157,6 +159,7 @@ pub const C01: Spec = Spec {
   opts: Opts::default,
   quick: (8, 15000),
   thorough: (16, 20000),
+  extra: None,
   assumptions: &["from-scratch evaluator (model.rs) is the specification of a clean build", "external changes only between sessions (P1)", "programs obey the static-role discipline of DESIGN.md §4.2"],
 };
 
@@ -210,6 +213,7 @@ pub const C02: Spec = Spec {
   opts: Opts::default,
   quick: (8, 15000),
   thorough: (16, 20000),
+  extra: None,
   assumptions: &["task-side log is ground truth for what a task's last execution did", "checker relations of model.rs (O4)"],
 };
 
@@ -276,6 +280,7 @@ pub const C03: Spec = Spec {
   opts: Opts::default,
   quick: (8, 15000),
   thorough: (16, 20000),
+  extra: None,
   assumptions: &["complete report = every resource changed externally since the last complete bottom-up build (tracked by the history builder)", "C03-F1 (task left stale by a partial top-down build) is attributed by a model-only signature"],
 };
 
@@ -315,7 +320,366 @@ pub const C04: Spec = Spec {
   opts: Opts::default,
   quick: (8, 15000),
   thorough: (16, 20000),
+  extra: None,
   assumptions: &["recorded require graph = shadow record built from the task-side log"],
+};
+
+// ---------------------------------------------------------------------------------------------------------------------
+// C09
+
+fn c09_cfg(t: Tier) -> GenCfg {
+  let mut c = bu_cfg(t);
+  c.wchks = RCHKS.to_vec();
+  c.exact_share = 0;
+  c.bottom_up_weight = 3;
+  c
+}
+
+fn c09_judge(case: &Case, run: &Run, an: &Analysis, stats: &mut Stats) -> CheckResult {
+  let mut nontrivial = false;
+  for b in &an.builds { if b.facts.coarse_ignored_change { nontrivial = true; } }
+  // A writer whose own write changes the value its (coarse) write checker stamps.
+  for l in &run.log {
+    if let crate::interp::L::TWriteCall { chk, .. } = l { if *chk != RChk::Exact { stats.class("write_with_coarse_checker"); nontrivial = true; break; } }
+  }
+  if nontrivial { stats.nontrivial(fingerprint(case)); sample(case, stats); }
+  if let Some(f) = crate::instr::stamp_timeliness(&run.log).into_iter().next() {
+    return Err(Failure::new(format!("[{}] {}", f.tag, f.msg)));
+  }
+  fail_on(an, &["stamp", "I2-verdict", "bu-verdict", "I2-unjustified-exec", "bu-unjustified-schedule", "missing-exec", "bu-missing-schedule", "incomplete-validation", "bu-unscheduled-exec", "bu-leftover", "panic-internal"])
+}
+
+pub const C09: Spec = Spec {
+  prop: "C09",
+  level: "exploration",
+  rule: "generated programs mixing exact, parity, existence-only and always-consistent checkers on reads, writes and requires (built-in and instrumented output checkers) x histories (top-down and bottom-up) with changes coarse checkers must ignore; instrumented resource/reader/writer handles and checkers log every stamp/check call: each read is stamped once, from the reader handed to the task, before the task consumes it; each write once, from the writer the write function used, after it ran (written_to: from the state at call time); require_end stamp describes the output the requirer received; each check call receives checker and stamp of creation; and the acceptor demands that a consistent verdict never leads to execution/scheduling and an inconsistent one always does; non-trivial = a change a coarse checker ignored while the raw value differed, or a write with a coarse checker; distinct by case hash",
+  cfg: c09_cfg,
+  transform: identity,
+  judge: c09_judge,
+  opts: Opts::default,
+  quick: (8, 15000),
+  thorough: (16, 20000),
+  extra: None,
+  assumptions: &["instrumented checkers and handles of the harness log faithfully", "stamp_* of generated checkers never fail (P9)"],
+};
+
+// ---------------------------------------------------------------------------------------------------------------------
+// C17 (part A: builds; part B, the API-level half, lives in props/trackerapi.rs)
+
+fn composite_opts() -> Opts { Opts { composite: true, dump: false } }
+
+/// One build per session, so that pie's EventTracker (which clears on build_start) can be compared after each build.
+pub fn split_sessions(c: &Case) -> Case {
+  let mut steps = vec![];
+  for s in &c.hist.steps {
+    match s {
+      Step::Session { builds } if builds.len() > 1 => { for b in builds { steps.push(Step::Session { builds: vec![b.clone()] }); } }
+      other => steps.push(other.clone()),
+    }
+  }
+  Case { prog: c.prog.clone(), hist: History { steps } }
+}
+
+pub fn c17_judge(case: &Case, run: &Run, an: &Analysis, stats: &mut Stats) -> CheckResult {
+  let events = crate::instr::events_of(&run.log);
+  let (nest, depth) = crate::instr::nesting(&events, false);
+  let has_bu = an.builds.iter().any(|b| matches!(b.kind, BuildKind::BottomUp(_)) && !b.facts.scheduled.is_empty());
+  if depth >= 3 && has_bu { stats.nontrivial(fingerprint(case)); sample(case, stats); }
+  if depth >= 6 { stats.class("nesting_depth>=6"); }
+  stats.add("tracker_events", events.len() as u64);
+  if let Some(f) = nest.into_iter().next() { return Err(Failure::new(format!("[{}] {}", f.tag, f.msg))); }
+  if let Some(f) = crate::instr::faithfulness(&run.log).into_iter().next() { return Err(Failure::new(format!("[{}] {}", f.tag, f.msg))); }
+  fail_on(an, &["exec-output", "require-end-output", "shape", "panic-internal"])?;
+  // Composite: the second child received the identical stream.
+  let second = run.streams.get(&1).cloned().unwrap_or_default();
+  if second != events {
+    let i = second.iter().zip(events.iter()).position(|(a, b)| a != b).unwrap_or(second.len().min(events.len()));
+    return Err(Failure::new(format!("[c17-composite] the two children of CompositeTracker received different streams; first difference at event #{}: {:?} vs {:?}", i, events.get(i), second.get(i))));
+  }
+  // EventTracker: after each session, its slice equals the projection of the last build's stream.
+  let mut k = 0;
+  for sess in &run.sessions {
+    if let (Some(last), Some(got)) = (sess.builds.last(), run.event_tracker_debug.get(k)) {
+      // All events since the last build_start of this session.
+      let first = sess.builds.first().map(|b| b.log.start).unwrap_or(0);
+      let evs = crate::instr::events_of(&run.log[first..last.log.end]);
+      let want = crate::instr::event_tracker_projection(&evs);
+      if &want != got {
+        let i = want.iter().zip(got.iter()).position(|(a, b)| a != b).unwrap_or(want.len().min(got.len()));
+        return Err(Failure::new(format!("[c17-event-tracker] EventTracker::slice() differs from the stream it was given at position {}: stored {:?}, stream {:?} (lengths {} vs {})", i, got.get(i), want.get(i), got.len(), want.len())));
+      }
+    }
+    k += 1;
+  }
+  Ok(())
+}
+
+fn c17_cfg(t: Tier) -> GenCfg {
+  let mut c = bu_cfg(t);
+  c.bottom_up_weight = 3;
+  c
+}
+
+pub const C17: Spec = Spec {
+  prop: "C17",
+  level: "exploration",
+  rule: "part A: generated programs x top-down and bottom-up histories run under CompositeTracker(Rec, CompositeTracker(Rec, EventTracker)); a stack machine demands that every end event closes the innermost open start of the same kind and subject; every task that really ran (task-side log) is bracketed by exactly one execute_start/execute_end carrying the output it returned; completed reads/writes/requires have start and end events and require_end carries the value the requirer received; both Rec children received identical streams; EventTracker::slice() equals the projection of the stream onto its ten kinds with index == position. Part B: random call sequences of all 23 Tracker methods against reference implementations of every Event/EventTracker helper. Non-trivial (A) = nesting depth >=3 with a bottom-up scheduling; distinct by case hash",
+  cfg: c17_cfg,
+  transform: split_sessions,
+  judge: c17_judge,
+  opts: composite_opts,
+  quick: (8, 8000),
+  thorough: (16, 15000),
+  extra: None,
+  assumptions: &["Rec records every tracker call it receives", "Debug text of EventTracker events is compared with text built from the recorded stream"],
+};
+
+// ---------------------------------------------------------------------------------------------------------------------
+// C18
+
+fn c18_cfg(t: Tier) -> GenCfg {
+  let mut c = bu_cfg(t);
+  c.faulty = true;
+  c.fault_steps = true;
+  c.bottom_up_weight = 3;
+  c
+}
+
+fn c18_judge(case: &Case, run: &Run, an: &Analysis, stats: &mut Stats) -> CheckResult {
+  use crate::interp::{Verdict, L};
+  let mut nontrivial = false;
+  let mut disarmed_later = false;
+  let mut seen_error = false;
+  for sess in run.sessions.iter() {
+    let Some(first) = sess.builds.first() else { continue; };
+    let Some(last) = sess.builds.last() else { continue; };
+    // Erroring check calls of this session, in order.
+    let errs: Vec<String> = run.log[first.log.start..last.log.end].iter().filter_map(|l| match l {
+      L::CCheck { chk, r, verdict: Verdict::Error, .. } => Some(crate::interp::fault_message(*r, *chk)),
+      _ => None,
+    }).collect();
+    stats.class_n("checker_errors", errs.len() as u64);
+    if !errs.is_empty() { seen_error = true; } else if seen_error && sess.faults.is_empty() { disarmed_later = true; }
+    if errs.len() >= 2 { stats.class("session_with>=2_checker_errors"); }
+    if !errs.is_empty() && sess.changed_before.is_empty() { nontrivial = true; }
+    if last.dep_errors != errs {
+      return Err(Failure::new(format!("[c18-reported] session at step {}: checkers returned errors {:?} but Session::dependency_check_errors() reports {:?}", sess.step, errs, last.dep_errors)));
+    }
+  }
+  if nontrivial && disarmed_later { stats.class("errors_without_change_then_disarmed"); }
+  if nontrivial { stats.nontrivial(fingerprint(case)); sample(case, stats); }
+  if let Some(t) = an.has(&["panic-internal", "panic-diagnosed"]) { return Err(Failure::new(format!("[c18-abort] {}", t.msg))); }
+  fail_on(an, &["missing-exec", "bu-missing-schedule", "bu-leftover", "I2-verdict", "bu-verdict", "incomplete-validation", "c01-output", "c01-state"])
+}
+
+pub const C18: Spec = Spec {
+  prop: "C18",
+  level: "fault_enumeration",
+  rule: "generated programs whose read dependencies use Faulty checkers (check returns Err while the (resource, checker) pair is in the fault set) x histories that arm and disarm fault sets (none / all / random subsets) between sessions, with and without real changes, top-down and bottom-up; per session the errors returned by checker calls (instrumentation log, in order) must equal Session::dependency_check_errors() (same messages, same order); every erroring check must be reported as an error verdict and be followed by execution (top-down) or scheduling+execution (bottom-up) of the owner; no build aborts; outputs and resources equal the from-scratch evaluator; thorough tier additionally enumerates all fault subsets for sampled cases; non-trivial = a session with a checker error and no external change (only the error forces re-execution); distinct by case hash",
+  cfg: c18_cfg,
+  transform: identity,
+  judge: c18_judge,
+  opts: Opts::default,
+  quick: (8, 15000),
+  thorough: (16, 20000),
+  extra: None,
+  assumptions: &["only `check` fails, stamp methods never do (P9)"],
+};
+
+// ---------------------------------------------------------------------------------------------------------------------
+// C16
+
+fn c16_cfg(t: Tier) -> GenCfg {
+  let mut c = bu_cfg(t);
+  c.wide = true;
+  c.bottom_up_weight = 3;
+  c
+}
+
+/// Everything observable about a run, as one hashable value.
+pub fn run_digest(run: &Run) -> u64 {
+  let mut parts: Vec<String> = vec![];
+  for s in &run.sessions {
+    for b in &s.builds {
+      parts.push(format!("{:?}|{:?}|{:?}|{:?}", b.kind, b.result, b.dep_errors, b.state_after));
+    }
+  }
+  fingerprint(&(parts, &run.log))
+}
+
+fn c16_judge(case: &Case, run: &Run, an: &Analysis, stats: &mut Stats) -> CheckResult {
+  let mut nontrivial = false;
+  for b in &an.builds { if b.facts.max_checks_in_frame >= 3 || b.facts.max_queue >= 3 { nontrivial = true; } }
+  if nontrivial { stats.nontrivial(fingerprint(case)); sample(case, stats); }
+  let d0 = run_digest(run);
+  // Unrelated instance in between (different allocation pattern, fresh hash seeds).
+  let other = Case { prog: case.prog.clone(), hist: History { steps: case.hist.steps.iter().rev().filter(|s| matches!(s, Step::Session { .. })).cloned().collect() } };
+  for k in 0..2 {
+    let _ = engine::run_case(&other, &Opts::default());
+    let again = engine::run_case(case, &Opts::default());
+    if run_digest(&again) != d0 {
+      let i = again.log.iter().zip(run.log.iter()).position(|(a, b)| a != b).unwrap_or(again.log.len().min(run.log.len()));
+      return Err(Failure::new(format!("[c16-replay] in-process replay #{} differs at log entry {}: {:?} vs {:?}", k + 1, i, run.log.get(i), again.log.get(i))));
+    }
+  }
+  stats.add("in_process_replays", 2);
+  // Across processes, for a deterministic subset of cases.
+  let every = if std::env::var("PV_C16_ALL_CROSS").is_ok() { 1 } else { 97 };
+  if fingerprint(case) % every == 0 && stats.live {
+    let dir = std::env::temp_dir().join(format!("pv-c16-{}-{:016x}.json", std::process::id(), fingerprint(case)));
+    if std::fs::write(&dir, serde_json::to_string(case).unwrap()).is_ok() {
+      let exe = std::env::current_exe().map_err(|e| Failure::new(format!("current_exe: {}", e)));
+      if let Ok(exe) = exe {
+        for k in 0..2 {
+          if let Ok(o) = std::process::Command::new(&exe).arg("trace").arg(&dir).output() {
+            let text = String::from_utf8_lossy(&o.stdout);
+            if let Some(d) = text.lines().find_map(|l| l.strip_prefix("digest ")) {
+              stats.add("cross_process_replays", 1);
+              if d.trim() != format!("{:016x}", d0) {
+                let _ = std::fs::remove_file(&dir);
+                return Err(Failure::new(format!("[c16-replay] replay #{} in a fresh process has digest {} but this process computed {:016x}", k + 1, d.trim(), d0)));
+              }
+            }
+          }
+        }
+      }
+      let _ = std::fs::remove_file(&dir);
+    }
+  }
+  Ok(())
+}
+
+pub fn trace_digest_of_file(path: &Path) -> Result<String, String> {
+  let text = std::fs::read_to_string(path).map_err(|e| e.to_string())?;
+  let case: Case = serde_json::from_str(&text).map_err(|e| e.to_string())?;
+  let run = engine::run_case(&case, &Opts::default());
+  Ok(format!("{:016x}", run_digest(&run)))
+}
+
+pub const C16: Spec = Spec {
+  prop: "C16",
+  level: "exploration",
+  rule: "generated wide programs (many dependencies per task, many readers per resource) x top-down and bottom-up histories; each case is run three times in-process on fresh Pie instances (fresh RandomState per HashMap), with an unrelated instance built in between, and for a deterministic 1/97 subset twice more in freshly spawned processes; the complete unified log (task operations, resource handle creation, checker calls, all tracker events in order) plus results, dependency-check errors and resource states must be identical; non-trivial = a validation frame with >=3 checks or >=3 tasks scheduled at once; distinct by case hash",
+  cfg: c16_cfg,
+  transform: identity,
+  judge: c16_judge,
+  opts: Opts::default,
+  quick: (8, 5000),
+  thorough: (16, 12000),
+  extra: None,
+  assumptions: &["hash seeds are sampled (5 replays per case at most), not enumerated"],
+};
+
+// ---------------------------------------------------------------------------------------------------------------------
+// C19
+
+fn c19_cfg(t: Tier) -> GenCfg {
+  let mut c = GenCfg::for_tier(t);
+  c.panic_steps = true;
+  c
+}
+
+fn c19_judge(case: &Case, run: &Run, an: &Analysis, stats: &mut Stats) -> CheckResult {
+  use crate::interp::L;
+  // Non-triviality: an abort at nesting depth >= 2 followed by a later session executing one of the aborted tasks.
+  let mut stack: Vec<TaskId> = vec![];
+  let mut aborted_deep: BTreeSet<TaskId> = BTreeSet::new();
+  let mut aborts = 0u64;
+  let mut nontrivial = false;
+  for l in &run.log {
+    match l {
+      L::TEnter(t) => { if aborted_deep.contains(t) { nontrivial = true; } stack.push(*t); }
+      L::TExit(..) => { stack.pop(); }
+      L::Aborted => {
+        aborts += 1;
+        if stack.len() >= 2 { aborted_deep.extend(stack.iter().cloned()); stats.class("abort_at_depth>=2"); }
+        stack.clear();
+      }
+      _ => {}
+    }
+  }
+  stats.class_n("aborted_builds_total", aborts);
+  if nontrivial { stats.nontrivial(fingerprint(case)); sample(case, stats); }
+  let mut seen_abort = false;
+  for (si, sess) in run.sessions.iter().enumerate() {
+    for (bi, b) in sess.builds.iter().enumerate() {
+      if let engine::BuildResult::Panic(msg) = &b.result {
+        match crate::analyze::panic_kind(msg) {
+          crate::analyze::PanicKind::Injected => {
+            if b.armed == 0 { return Err(Failure::new(format!("[c19] session {} build {}: injected panic without being armed (harness error)", si, bi))); }
+          }
+          crate::analyze::PanicKind::Internal => {
+            return Err(Failure::new(format!("[c19-internal] session {} build {} ({:?}) after {} earlier abort(s) failed with an internal error: {}", si, bi, b.kind, aborts, msg)));
+          }
+          _ => {
+            return Err(Failure::new(format!("[c19-spurious-abort] session {} build {} ({:?}) aborted with a diagnosed violation that does not exist in the current state: {}", si, bi, b.kind, msg)));
+          }
+        }
+        seen_abort = true;
+      } else if seen_abort {
+        if let Some(f) = an.findings.iter().find(|f| f.session == si && f.build == bi && (f.tag == "c01-output" || f.tag == "c01-state" || f.tag == "missed-violation")) {
+          return Err(Failure::new(format!("[c19-unsound-after-abort] {}", f.msg)));
+        }
+      }
+    }
+  }
+  Ok(())
+}
+
+/// Crash-point enumeration: for sampled cases, abort the designated build at every one of its operation points.
+fn c19_extra(spec: &Spec, tier: Tier, seed: u64, known: &Known, report: &mut Report) {
+  use proptest::strategy::{Strategy, ValueTree};
+  let n_cases = match tier { Tier::Quick => 3000, Tier::Thorough => 40000 };
+  let cfg = (spec.cfg)(tier);
+  let strategy = gen::case_strategy(cfg);
+  let rng = proptest::test_runner::TestRng::from_seed(proptest::test_runner::RngAlgorithm::ChaCha, &driver::derive_seed(seed, "C19/enum", 0));
+  let mut runner = proptest::test_runner::TestRunner::new_with_rng(proptest::test_runner::Config::default(), rng);
+  let mut points = 0u64;
+  let mut cases_enumerated = 0u64;
+  let mut stats = Stats::new();
+  for _ in 0..n_cases {
+    let Ok(tree) = strategy.new_tree(&mut runner) else { continue; };
+    let case = tree.current();
+    // The first armed step designates the build to abort.
+    let Some(pos) = case.hist.steps.iter().position(|s| matches!(s, Step::ArmPanic { .. })) else { continue; };
+    let mut probe = case.clone();
+    probe.hist.steps[pos] = Step::ArmPanic { after: 0 };
+    let run = engine::run_case(&probe, &Opts::default());
+    // Operation points of the first build of the session that follows.
+    let target_step = pos + 1;
+    let ops = run.sessions.iter().find(|s| s.step == target_step).and_then(|s| s.builds.first()).map(|b| b.ops).unwrap_or(0);
+    if ops == 0 { continue; }
+    cases_enumerated += 1;
+    for k in 1..=ops {
+      let mut c = case.clone();
+      c.hist.steps[pos] = Step::ArmPanic { after: k };
+      points += 1;
+      stats.evaluations += 1;
+      if let Err(f) = driver::guarded(|| check(spec, &c, &mut stats)) {
+        if known.attributed(&f).is_some() { continue; }
+        report.violation("case", &serde_json::to_value(&c).unwrap(), &f, &pretty_case(&c));
+        report.stats.merge(stats);
+        return;
+      }
+    }
+  }
+  report.stats.merge(stats);
+  report.extra.insert("crash_points_enumerated".into(), json!(points));
+  report.extra.insert("cases_with_all_crash_points".into(), json!(cases_enumerated));
+}
+
+pub const C19: Spec = Spec {
+  prop: "C19",
+  level: "fault_enumeration",
+  rule: "generated static-role programs x top-down histories in which builds are aborted by a panic injected at the k-th task-side operation point (task entry/exit, before/after each read/require/write, inside the write function), at any nesting depth, followed by further sessions on the same instance; random k in the search phase, and for sampled cases every k of the designated build is enumerated; every later build must return the from-scratch result for the then-current state (output and resources), and no build may fail with an internal error or a diagnosed violation (static-role programs contain none); non-trivial = abort at nesting depth >=2 followed by a session that executes one of the aborted tasks again; distinct by case hash",
+  cfg: c19_cfg,
+  transform: identity,
+  judge: c19_judge,
+  opts: Opts::default,
+  quick: (8, 15000),
+  thorough: (16, 20000),
+  extra: Some(c19_extra),
+  assumptions: &["later bottom-up builds after an abort are not judged (no listed property covers them, P10)", "aborts caused by diagnosed violations are exercised by the C05-C07 checks"],
 };
 
 // ---------------------------------------------------------------------------------------------------------------------
@@ -327,6 +691,11 @@ pub fn spec_of(prop: &str) -> Option<&'static Spec> {
     "C02" => Some(&C02),
     "C03" => Some(&C03),
     "C04" => Some(&C04),
+    "C09" => Some(&C09),
+    "C16" => Some(&C16),
+    "C19" => Some(&C19),
+    "C17" => Some(&C17),
+    "C18" => Some(&C18),
     _ => None,
   }
 }
@@ -347,6 +716,7 @@ pub fn run(prop: &str, tier: Tier, seed: u64) -> i32 {
   let scfg = SearchCfg { prop, label: "case", seed, shards, cases_per_shard: cases, max_shrink_iters: 3000 };
   let (stats, found) = driver::search(&scfg, &known, || gen::case_strategy(cfg.clone()), |c, s| check(spec, c, s), |c| pretty_case(c));
   report.absorb("case", stats, found);
+  if let Some(extra) = spec.extra { extra(spec, tier, seed, &known, &mut report); }
   report.assumptions = spec.assumptions.iter().map(|s| s.to_string()).collect();
   report.finish()
 }
